@@ -82,12 +82,17 @@ def as_bytes(x):
     return x if isinstance(x, bytes) else x.encode('utf-8')
 
 
-def well_formed(kind, data):
+def well_formed(kind, data, opts=None):
     """Parses the output with the reader of its kind; returns an error string or None."""
     try:
         if kind == 'png':
             raster.read_png(data)
         elif kind == 'svg':
+            enc = (opts or {}).get('encoding') or 'utf-8'
+            if (opts or {}).get('xmldecl') is False and enc.lower() not in ('utf-8', 'utf8'):
+                # the caller asked for a document without declaration in another encoding: a parser
+                # has to be told the encoding out of band
+                data = data.decode(enc).encode('utf-8')
             vector.read_svg(data)
         elif kind == 'pdf':
             d = vector.read_pdf(data)
@@ -195,6 +200,9 @@ def run_cli(argv):
             code = cli.main(list(argv))
         except SystemExit as ex:
             code = ('exit', ex.code)
+        except ValueError as ex:
+            # a refusal of the serialiser (not of make) reaches the caller of main()
+            code = ('ValueError', str(ex)[:100])
     return code, out.getvalue(), err.getvalue()
 
 
@@ -355,7 +363,7 @@ def check_routes(case, work):
             i = next((i for i, (x, y) in enumerate(zip(a, b)) if x != y), min(len(a), len(b)))
             devs.append(Dev('C12/route-%s-differs-%s' % (name, kind), 'first difference at byte %d: %r vs %r (options %s)'
                             % (i, a[max(0, i - 20):i + 30], b[max(0, i - 20):i + 30], opts)))
-    err = well_formed(base, ref)
+    err = well_formed(base, ref, opts)
     if err:
         devs.append(Dev('C12/malformed-%s' % kind, err))
     labels.append('routes-%d' % (compared + 1))
@@ -547,9 +555,9 @@ def route_cases(draw):
             opts[k] = draw(st.sampled_from(['green', '#0000ff', '#f0f', 'orange'] + ([None] if kind in ('png', 'svg', 'svgz') else [])))
     if 'svg' in sup:
         for name, strat, p in (('xmldecl', st.just(False), 3), ('svgns', st.just(False), 3), ('nl', st.just(False), 3),
-                               ('title', st.sampled_from(['T <&> "q"', 'Title', "it's"]), 3), ('desc', st.sampled_from(['D & d', 'desc']), 3),
+                               ('title', st.sampled_from(['T <&> "q"', 'Title', "it's", 'K\u00e4se', 'Price: 5 \u20ac', '\u70b9']), 3), ('desc', st.sampled_from(['D & d', 'desc', 'Gr\u00fc\u00dfe']), 3),
                                ('svgid', st.just('myid'), 3), ('draw_transparent', st.just(True), 2),
-                               ('svgversion', st.sampled_from([1.0, 1.1, 1.2, 2.0]), 3), ('encoding', st.sampled_from(['iso-8859-1', 'utf-8']), 2)):
+                               ('svgversion', st.sampled_from([1.0, 1.1, 1.2, 2.0]), 3), ('encoding', st.sampled_from(['iso-8859-1', 'utf-8', 'iso-8859-1', 'ascii']), 3)):
             if draw(st.integers(0, 9)) < p:
                 opts[name] = draw(strat)
         r = draw(st.integers(0, 9))
